@@ -37,7 +37,20 @@ func genMapCase(t *rapid.T) MapCase {
 	return c
 }
 
-func init() { vk.Register("C04", "hist", runC04) }
+func init() {
+	vk.Register("C04", "hist", runC04)
+	vk.Register("C04", "float", runC04Float)
+}
+
+func TestC04Float(t *testing.T) {
+	h := vk.Start(t, "C04", "float")
+	vk.Rapid(h, t, func(t *rapid.T) FloatMapCase {
+		gop := rapid.Custom(func(t *rapid.T) MOp {
+			return MOp{Kind: rapid.SampledFrom([]string{"set", "set", "set", "del", "get", "seek"}).Draw(t, "k"), A: rapid.IntRange(0, 11).Draw(t, "key")}
+		})
+		return FloatMapCase{Ops: rapid.SliceOfN(gop, 1, 30).Draw(t, "ops")}
+	}, runC04Float)
+}
 
 func TestC04Hist(t *testing.T) {
 	h := vk.Start(t, "C04", "hist")
